@@ -1,6 +1,6 @@
 (* C11 - SampleRatio. About genR/Proportion.v (regenerated from metrics/proportion.py). *)
 From Coq Require Import Reals Bool Lra.
-From TT Require Import lib.PreludeR lib.Distr genR.Proportion.
+From TT Require Import lib.RTac lib.PreludeR lib.Distr genR.Proportion.
 Local Open Scope R_scope.
 
 Ltac nR := cbv [nlit nraise neqb nleb nltb nmin nmax nabs nsqrt] in *.
@@ -59,7 +59,8 @@ Lemma sr_norm_closed_form cfg k n p :
   sr_norm_pvalue fam cfg k n p
   = 2 * sf (norm_ fam 0) (Rabs (corrected (sr_correction cfg) (k - n * p) / sqrt (n * p * (1 - p)))).
 Proof.
-  unfold sr_norm_pvalue, corrected. nR.
+  unfold sr_norm_pvalue, corrected. nR. cbv zeta.
+  canon_to (k - n * p). canon_to (n * p * (1 - p)).
   destruct (sr_correction cfg); cbn [andb negb].
   - destruct (Req_EM_T (k - n * p) 0) as [E|E]; cbn [negb].
     + rewrite E. destruct (Rlt_dec 0 0); [lra|]. unfold Rmax. destruct (Rle_dec (0 - 1 / 2) 0); [reflexivity | lra].
